@@ -12,7 +12,7 @@ READY = True
 LEVEL = "exploration"
 WORKERS = {"quick": 8, "thorough": 16}
 BUDGET = {"quick": 60, "thorough": 420}
-MIN_NONTRIVIAL = {"quick": 300, "thorough": 5000}
+MIN_NONTRIVIAL = {"quick": 200, "thorough": 1500}
 REQUIRED_HOOKS = ["rewrite", "parse", "evaluate:I", "evaluate:C", "clause-alone"]
 RULE = (
     "Filter trees are built from list (implicit and), and, or, not with 1-3 children over primitive clauses translated by the real rewriters, one family per "
